@@ -1,2 +1,133 @@
-/- placeholder driver for C05: replaced when the check for C05 is built -/
-def main : IO Unit := IO.println "not-built"
+import CashewsVerif.Driver.Proto
+import CashewsVerif.Model.TxSched
+/- Driver for C05: replays a recorded schedule (`run <tid>` / `adv <u>`) on the TxSched model.
+
+  case <nkeys>                     -> ok            (forget everything)
+  init <k> <v>                     -> ok
+  task <tx|plain> <fast|locked|serializable> <timeout u> <ctx|dec> <op>*   -> ok
+        op = set:k:v | incr:k:n | get:k | del:k | sleep:d | raise | nin:ctx | nin:dec | nout
+  run <tid>                        -> label=<command the task was parked before> store=… locks=… now=…
+  adv <u>                          -> store=… locks=… now=…
+  end                              -> outcomes of all tasks
+-/
+open CashewsVerif CashewsVerif.Proto CashewsVerif.TxSched
+
+structure St where
+  nkeys : Nat := 0
+  init : List (Nat × Int) := []
+  tasks : List Task := []
+  world : Option World := none
+
+def parseMode? : String → Option Mode
+  | "fast" => some .fast | "locked" => some .locked | "serializable" => some .serializable | _ => none
+
+def parseForm? : String → Option Form
+  | "ctx" => some .ctx | "dec" => some .dec | _ => none
+
+def parseCmd? (s : String) : Option Cmd :=
+  match s.splitOn ":" with
+  | ["set", k, v] => do pure (.set (← k.toNat?) (← v.toInt?))
+  | ["incr", k, n] => do pure (.incr (← k.toNat?) (← n.toInt?))
+  | ["get", k] => do pure (.get (← k.toNat?))
+  | ["del", k] => do pure (.delete (← k.toNat?))
+  | ["sleep", d] => do pure (.sleep (← d.toNat?))
+  | ["raise"] => some .raise
+  | ["nin", f] => do pure (.nestIn (← parseForm? f))
+  | ["nout"] => some .nestOut
+  | _ => none
+
+def insSorted (x : Nat) : List Nat → List Nat
+  | [] => [x]
+  | y :: r => if x ≤ y then x :: y :: r else y :: insSorted x r
+
+def sortNat (l : List Nat) : List Nat := l.foldr insSorted []
+
+def showLock : LockKey → String
+  | none => "g"
+  | some k => s!"k{k}"
+
+def showRes (rs : List (Option Int)) : String :=
+  ",".intercalate (rs.map fun r => match r with | none => "n" | some v => toString v)
+
+def showOutcome : Outcome → String
+  | .returned rs => "ret:" ++ showRes rs
+  | .raisedBody => "raise:body"
+  | .raisedLocked => "raise:locked"
+
+def label (t : Task) : String :=
+  match t.pc with
+  | .start => "start"
+  | .lockTry k _ => "set_lock:" ++ showLock (lockKeyOf t.mode k)
+  | .seedGet k _ => s!"get:{k}"
+  | .readGet k => s!"get:{k}"
+  | .direct (.set k _) => s!"set:{k}"
+  | .direct (.incr k _) => s!"incr:{k}"
+  | .direct (.get k) => s!"get:{k}"
+  | .direct (.delete k) => s!"delete:{k}"
+  | .direct _ => "none"
+  | .commitDel => "delete_many:" ++ "+".intercalate ((sortNat t.del).map toString)
+  | .commitSet =>
+    let ks := sortNat (t.ov.map (·.1))
+    "set_many:" ++ "+".intercalate (ks.map fun k => s!"{k}={(t.ov.get k).getD 0}")
+  | .unlocking (l :: _) _ => "unlock:" ++ showLock l
+  | .unlocking [] _ => "none"
+  | .lockSleep .. => "none"
+  | .bodySleep _ => "none"
+  | .finished _ => "none"
+
+def showWorld (n : Nat) (w : World) : String :=
+  let st := (List.range n).filterMap fun k => (w.store k).map fun v => s!"{k}={v}"
+  let lks : List LockKey := none :: (List.range n).map some
+  let ls := lks.filterMap fun l =>
+    match w.lock l with
+    | some (o, d) => if w.now < d then some s!"{showLock l}@{o}" else none
+    | none => none
+  s!"store={",".intercalate st} locks={",".intercalate ls} now={w.now}"
+
+def mkWorld (st : St) : World :=
+  World.init (fun k => AL.get st.init k) st.tasks
+
+def getWorld (st : St) : World := st.world.getD (mkWorld st)
+
+def step (st : St) (line : String) : St × String :=
+  match words line with
+  | ["case", n] =>
+    match n.toNat? with
+    | some n => ({ nkeys := n }, "ok")
+    | none => (st, "bad-op")
+  | ["init", k, v] =>
+    match k.toNat?, v.toInt?, st.world with
+    | some k, some v, none => ({ st with init := AL.put st.init k v }, "ok")
+    | _, _, _ => (st, "bad-op")
+  | "task" :: kind :: mode :: timeout :: form :: ops =>
+    match (if kind = "tx" then some true else if kind = "plain" then some false else none),
+          parseMode? mode, timeout.toNat?, parseForm? form, allSome (ops.map parseCmd?), st.world with
+    | some isTx, some m, some to, some f, some prog, none =>
+      ({ st with tasks := st.tasks ++ [{ isTx := isTx, mode := m, timeout := to, form := f, prog := prog }] }, "ok")
+    | _, _, _, _, _, _ => (st, "bad-op")
+  | ["run", tid] =>
+    match tid.toNat? with
+    | some tid =>
+      if tid < st.tasks.length then
+        let w := getWorld st
+        let l := label (w.tasks tid)
+        let w' := w.step (.run tid)
+        ({ st with world := some w' }, s!"label={l} {showWorld st.nkeys w'}")
+      else (st, "bad-op")
+    | none => (st, "bad-op")
+  | ["adv", d] =>
+    match d.toNat? with
+    | some d =>
+      let w' := (getWorld st).step (.adv d)
+      ({ st with world := some w' }, showWorld st.nkeys w')
+    | none => (st, "bad-op")
+  | ["end"] =>
+    let w := getWorld st
+    let outs := (List.range st.tasks.length).map fun i =>
+      match (w.tasks i).pc with
+      | .finished o => s!"t{i}={showOutcome o}"
+      | _ => s!"t{i}=unfinished"
+    (st, "end " ++ " ".intercalate outs)
+  | _ => (st, "bad-op")
+
+def main : IO Unit := mainLoop step {}
